@@ -361,6 +361,48 @@ theorem loglikError_noninterference {μ} [Inhabited μ] [MaskVal μ] (m : Tensor
   simp only [id]
   rw [where_noninterference m fx fx' h1]
 
+/-! ## every masking site under `direct/nn` (table generated by the AST scan) -/
+
+/-- a well-formed `where` site computes exactly the model kernel `mask == 0 ? +0 : data` -/
+theorem wf_where_site_kernel {μ} [MaskVal μ] (w : WhereSite) (h : w.wf = true) (mv : μ) (kv : FVal) :
+    w.kernel mv kv = whereZero mv kv := by
+  obtain ⟨pe, pl, tb, eb⟩ := w
+  simp only [WhereSite.wf, Bool.and_eq_true, beq_iff_eq] at h
+  obtain ⟨⟨⟨h1, h2⟩, h3⟩, h4⟩ := h
+  subst h1 h2 h3 h4
+  simp only [WhereSite.kernel, whereZero, Branch.pick, if_true]
+
+/-- … hence, at **every** well-formed site, the masked quantity is `+0` off the support, bit-identical
+on it, and does not depend on unsampled entries of its operand (for every mask type / shape). -/
+theorem wf_site_pointwise {μ} [Inhabited μ] [MaskVal μ] (w : WhereSite) (h : w.wf = true)
+    (m : Tensor μ) (k : Tensor FVal) : whereWith w.kernel m k = whereWith whereZero m k := by
+  have : (w.kernel : μ → FVal → FVal) = whereZero := by
+    funext mv kv; exact wf_where_site_kernel w h mv kv
+  rw [this]
+
+theorem wf_site_noninterference {μ} [Inhabited μ] [MaskVal μ] (w : WhereSite) (h : w.wf = true)
+    (m : Tensor μ) (k k' : Tensor FVal) (hk : agreeOnSupport m k k') :
+    whereWith w.kernel m k = whereWith w.kernel m k' := by
+  rw [wf_site_pointwise w h, wf_site_pointwise w h]
+  exact where_noninterference m k k' hk
+
+theorem wf_site_off_support {μ} [Inhabited μ] [MaskVal μ] (w : WhereSite) (h : w.wf = true)
+    (m : Tensor μ) (k o : Tensor FVal) (ho : whereWith w.kernel m k = some o) (fl : Nat)
+    (hfl : fl < prodR o.shape.reverse)
+    (hm : MaskVal.eqConst (srcAt m default o.shape.reverse fl) 0 = true) :
+    o.data[fl]? = some .posZero := by
+  rw [wf_site_pointwise w h] at ho
+  obtain ⟨_, _, hp⟩ := where_pointwise _ m k o ho
+  rw [hp fl hfl]; simp [whereZero, hm]
+
+/-- a site that is not of the accepted form is rejected by the decidable predicate: the product form
+is flagged, a `where` with another predicate or constant is not well-formed -/
+example : Site.wf { file := "f", func := "g", form := .flagged "multiplication by the mask", operand := "x",
+                    mask := "m", zeroDtypeOf := "" } = false := by decide
+example : (WhereSite.wf { predEq := true, predLit := 1, thenB := .const .posZero, elseB := .data }) = false := by decide
+example : (WhereSite.wf { predEq := true, predLit := 0, thenB := .const .negZero, elseB := .data }) = false := by decide
+example : (WhereSite.wf { predEq := true, predLit := 0, thenB := .const .posZero, elseB := .data }) = true := by decide
+
 /-- why the code must be a `where` and not a product: `kspace * mask` leaves `−0` for negative
 entries and NaN for infinite ones at unsampled positions. -/
 theorem mul_variant_violates :
